@@ -326,6 +326,12 @@ func (en *DefaultEngine) runFirst(ctx context.Context) (bool, error) {
 	if en.first == nil {
 		return true, nil
 	}
+	if en.st.MatchFlag(state.FLAG_TERMINATE, true) {
+		// a terminated session stays terminated; only a termination asked for by the check itself is undone below
+		logg.InfoCtxf(ctx, "session is terminated, pre-VM check not run", "state", en.st)
+		en.execd = true
+		return false, nil
+	}
 	logg.DebugCtxf(ctx, "start pre-VM check")
 	// the check runs on a cache of its own and must not disturb the position and the last value of a resumed session
 	idx := en.st.SizeIdx
